@@ -19,7 +19,8 @@
                                     h[0] = 1, h[1:(n+1)//2] = 2 (odd n) on zeros(xf.shape[axis])
                                     (IndexError when the table is too short), n-dimensional
                                     input, any (negative) axis, h broadcast along that axis,
-                                    scipy.fftpack.ifft(h*xf, n, axis): zero padding / truncation
+                                    scipy.fftpack.ifft(h*xf, n, axis): zero padding / truncation;
+                                    0-d input (h = 1.0): ValueError for n < 1, else IndexError
      arim.signal.timeshift_spectra  (signal.py:364-425) dispatcher: one frequency in the
                                     transfer function -> broadcast, else frequency by frequency
      arim.model.transfer_func_to_timetraces / _timeshift_timedomain (model.py:1660-1748)
@@ -221,8 +222,9 @@ Section Synthesis.
     tabulate (length l) (fun j => if (j =? ax)%nat then v else nth j l v).
 
   Inductive h_error :=
-  | HIndexError    (* 0-d input, axis out of range, table too short *)
-  | HValueError.   (* scipy.fftpack.ifft: invalid number of data points (n < 1) *)
+  | HIndexError    (* 0-d input with n >= 1, axis out of range, table too short *)
+  | HValueError.   (* scipy.fftpack.ifft: invalid number of data points (n < 1); for a 0-d input this
+                      comes BEFORE the IndexError, for an n-d input after the axis and table lookups *)
 
   Section WithIfft.
     (* ifft1 X n j = scipy.fftpack.ifft(X[0:n], n)[j]  (an oracle; Dft.idft in the theorems) *)
@@ -232,7 +234,13 @@ Section Synthesis.
     Definition rfft_to_hilbert (shape : list nat) (xf : list nat -> cx) (n axis : Z)
       : h_error + (list nat * (list nat -> cx)) :=
       match shape with
-      | [] => inl HIndexError                       (* xf.ndim == 0: h = 1.0, ifft of a 0-d array raises *)
+      | [] =>
+          (* xf.ndim == 0: h = 1.0 (no table, xf.shape[axis] is never evaluated), then
+             scipy.fftpack.ifft(h * xf, n, axis) of a 0-d array: scipy checks n FIRST
+             (ValueError "invalid number of data points (n) specified" for n < 1, any axis) and
+             only then looks up the axis in the empty shape (IndexError "tuple index out of
+             range", any axis) *)
+          if n <? 1 then inl HValueError else inl HIndexError
       | _ =>
           match py_index (Z.of_nat (length shape)) axis with
           | None => inl HIndexError                 (* xf.shape[axis] *)
